@@ -49,18 +49,16 @@ func WithGlobalTx(ctx context.Context, gc *GtxConfig, business CallbackWithCtx) 
 		return fmt.Errorf("global transaction name is required.")
 	}
 
-	// open global transaction for the first time
-	if !IsSeataContext(ctx) {
-		ctx = InitSeataContext(ctx)
-	}
-
+	// every scope works on a context variable of its own, carrying the xid it inherits (as a remote
+	// call would): what the scope does to xid, role and name must not reach the caller's context,
+	// whether the caller holds a transaction (it would skip or misdirect its own second phase) or
+	// not (it would end the transaction this scope began a second time)
 	if IsGlobalTx(ctx) {
-		// nested scope on a context shared with the enclosing scope: work on a fresh context
-		// variable carrying the xid (as a remote call would), so that the enclosing scope's
-		// xid, role and name are not overwritten and it still completes its own second phase
 		xid := GetXID(ctx)
 		ctx = InitSeataContext(ctx)
 		SetXID(ctx, xid)
+	} else {
+		ctx = InitSeataContext(ctx)
 	}
 
 	if re = begin(ctx, gc); re != nil {
